@@ -140,6 +140,20 @@ func (r *runner) runLanes(schemeIdx int) {
 					ownAfter = a.Amount
 				}
 			})
+			// second presentations of the forged bytes, caches left as the block left them: alone, and as
+			// transaction sp.i of the same block again
+			var againAlone, againBlock lib.ErrorI = lib.ErrPanic(), lib.ErrPanic()
+			if berr == nil && errs[sp.i] != nil {
+				w.inTxn(func() { _, _, againAlone = w.sm.ApplyTransaction(0, fbz, crypto.HashString(fbz), nil) })
+				w.inTxn(func() {
+					e2, _, b2 := r.applyBlock(block)
+					if b2 != nil {
+						againBlock = b2
+					} else {
+						againBlock = e2[sp.i]
+					}
+				})
+			}
 			label := fmt.Sprintf("lane:%s:n%d:i%d", sp.variant, sp.n, sp.i)
 			var hx []string
 			for _, bz := range block {
@@ -166,6 +180,15 @@ func (r *runner) runLanes(schemeIdx int) {
 						r.fail("C05:path-divergence:batch", fmt.Sprintf("%s: valid transaction %d of the block failed with %s", label, p, errStr(errs[p])), replay)
 					}
 				}
+			}
+			if againAlone == nil || againBlock == nil {
+				how := "alone through ApplyTransaction"
+				if againAlone != nil {
+					how = "in a second block"
+				}
+				r.fail("C05:unauthorized-state-change:accepted-on-second-presentation", fmt.Sprintf("%s %s: a %s transaction whose field %s was changed after signing was refused in its block (index %d, lane %d) and EXECUTED when the same bytes were presented again %s with the caches left alone",
+					r.o.CurCase(), label, r.sc, f.field, sp.i, sp.i%8, how), replay)
+				res = "ok-on-second-presentation"
 			}
 			r.o.Op(fmt.Sprintf("tx %s %s %s %s %s", label, contentID(f.tx), keyToken(f.tx.Signature.PublicKey), sigTok(f.tx.Signature.Signature), drv.Hex(crypto.Hash(fbz)[:20])), res)
 			r.o.Count("path:lane")
